@@ -2,6 +2,7 @@ import OutrankModel.Model.Stream
 import OutrankModel.Model.C05
 import OutrankModel.Model.C06
 import OutrankModel.Model.C16
+import OutrankModel.Model.C18
 /-
 DESIGN §11.2 – the WHOLE ranking pipeline of `outrank --task ranking --data_source csv-raw` as one executable function,
 composed from the per-property models (nothing is re-modelled here):
@@ -18,6 +19,9 @@ composed from the per-property models (nothing is re-modelled here):
     inv + triplet                                                                       → `C06.rows`     (`batchRows`)
   get_grouped_df                      groupby(FeatureA, FeatureB).median()              → `Stream.aggregate`
   task_ranking                        sort_values(by='Score')                           → `Stream.finalTable`
+  task_summary (`--task summary` / the second half of `--task all`)
+    read_and_sort_triplets … create_final_dataframe   pairwise_ranks.tsv → feature_singles.tsv → `summaryOfFile`  (C18.summary)
+    handle_interaction_order                          feature_singles_aggregated.tsv             → `aggregatedOfFile` (C18.aggregatedSummary)
 
 INPUT CONVENTION.  `header` and every element of `lines` are lines exactly as Python's text-mode file iteration yields
 them: the body followed by its terminator `"\n"` if the file has one there (universal newlines: `\r\n` and `\r` arrive as
@@ -27,8 +31,10 @@ breaks, including none).  Strings are `C16.Str = List Char`; column names and ce
 
 ASSUMPTIONS (the configuration this function models; everything else is outside):
   * `--data_source csv-raw`, `--interaction_order 1`, no transformers / multi-value / sub-feature / noise features, no
-    feature-set focus, no reference model JSON, `--mi_stratified_sampling_ratio 1.0`,
-    `--include_cardinality_in_feature_names False`;
+    feature-set focus, no reference model JSON, `--include_cardinality_in_feature_names False`;
+  * `--mi_stratified_sampling_ratio` is the EXACT rational `rnum / rden` of the float32 value `numba_mi` hands to the
+    estimator (`np.float32(args.mi_stratified_sampling_ratio)` – a dyadic rational; 1.0 is `1 / 1`), `0 < rnum / rden ≤ 1`;
+    it reaches `MI.estimator` through `C05.tripletC` exactly as the per-property models thread it;
   * the header's names are pairwise distinct (pandas would otherwise build a frame with duplicated labels);
   * `--combination_number_upper_bound` ≥ number of pairs: `prior_combinations_sample` then returns ALL pairs (stably
     sorted by their counts) and `random.shuffle` permutes them; the aggregated table is invariant under any permutation
@@ -49,6 +55,8 @@ structure Cfg where
   heuristic : String       -- args.heuristic
   label : String           -- args.label_column
   targetOnly : Bool        -- args.target_ranking_only == 'True'
+  rnum : Nat               -- np.float32(args.mi_stratified_sampling_ratio) = rnum / rden exactly (1.0 = 1 / 1)
+  rden : Nat
   deriving Repr
 
 def Cfg.stream (c : Cfg) : Stream.Cfg := ⟨c.batch, c.sub⟩
@@ -97,7 +105,7 @@ def pairs (c : Cfg) (cols : List String) : List (String × String) :=
 /-- the score column entry of one evaluated pair, on the coded frame `cf` of the batch -/
 def scorePair {α σ : Type} (ar : Arith α σ) (rules : List (C05.Cond × C05.Callee)) (correctionName : String)
     (c : Cfg) (cf : List (String × List Nat)) (p : String × String) : σ :=
-  ar.emb (C05.tripletC ar.mi rules correctionName cf c.label c.heuristic 1 1 p).2.2
+  ar.emb (C05.tripletC ar.mi rules correctionName cf c.label c.heuristic c.rnum c.rden p).2.2
 
 /-- re-association `(a, b, s) ↦ ((a, b), s)` (C06 emits triples, C08 groups by the pair) -/
 def keyed {σ : Type} (t : String × String × σ) : (String × String) × σ := ((t.1, t.2.1), t.2.2)
@@ -152,6 +160,29 @@ quoted, cells that need it are) and followed by the terminator `term k` -/
 def renderLines (quote : Nat → Nat → Bool) (term : Nat → C16.Str) (table : List (List C16.Str)) : List C16.Str :=
   table.zipIdx.map fun (row, k) => C16.renderRow (quote k) row ++ term k
 
+/-! ### the summary stage (`outrank_task_result_summary`, C18) on the table the ranking stage wrote -/
+
+/-- the rows `read_and_sort_triplets` reads back from `pairwise_ranks.tsv`: the two names as text, the score as the
+exact rational `toRat` assigns to it (C18 works over exact rationals; every finite float is one) -/
+def tableRows {σ : Type} (toRat : σ → Rat) (t : List ((String × String) × σ)) : List C18.Row :=
+  t.map fun r => ⟨r.1.1.toList, r.1.2.toList, toRat r.2⟩
+
+/-- `feature_singles.tsv` computed from a pairwise table (`none` = the all-NaN column of `0/0`, see Model/C18) -/
+def summaryOfTable {σ : Type} (toRat : σ → Rat) (c : Cfg) (t : List ((String × String) × σ)) : Option C18.Table :=
+  C18.summary c.label.toList c.heuristic.toList (tableRows toRat t)
+
+/-- `outrank --task all` (ranking, then summary) on a file: `feature_singles.tsv` -/
+def summaryOfFile {α σ : Type} (ar : Arith α σ) (toRat : σ → Rat) (rules : List (C05.Cond × C05.Callee))
+    (correctionName : String) (c : Cfg) (header : C16.Str) (lines : List C16.Str) : Option C18.Table :=
+  summaryOfTable toRat c (rankFile ar rules correctionName c header lines).table
+
+/-- … and `feature_singles_aggregated.tsv` (written by the code only when `--interaction_order` > 1; with the modelled
+ranking configuration no interaction feature exists and the table is empty unless a plain name contains `AND`) -/
+def aggregatedOfFile {α σ : Type} (ar : Arith α σ) (toRat : σ → Rat) (rules : List (C05.Cond × C05.Callee))
+    (correctionName : String) (c : Cfg) (header : C16.Str) (lines : List C16.Str) : Option C18.Table :=
+  C18.aggregatedSummary c.label.toList c.heuristic.toList
+    (tableRows toRat (rankFile ar rules correctionName c header lines).table)
+
 /-! ### the instance the driver runs -/
 
 /-- IEEE double order and midpoint (pandas: `(a + b) / 2` in float64) -/
@@ -166,5 +197,18 @@ def floatEmb : C05.Score Float → Float
   | .err _ => 0.0 / 0.0
 
 def floatArith : Arith Float Float := ⟨MI.floatOps, floatOrd, floatEmb⟩
+
+/-- the EXACT rational value of an IEEE double (sign, 11 exponent bits, 52 fraction bits; subnormals included).
+±∞ and NaN have no rational value and are sent to 0 – the modelled configuration produces finite scores only and the
+harness skips non-finite tables. -/
+def floatToRat (x : Float) : Rat :=
+  let b := x.toBits.toNat
+  let e := (b / 2 ^ 52) % 2048
+  let m := b % 2 ^ 52
+  if e = 2047 then 0 else
+    let mant : Nat := if e = 0 then m else m + 2 ^ 52
+    let ex : Nat := if e = 0 then 1 else e              -- value = mant · 2^(ex − 1075)
+    let mag : Rat := if 1075 ≤ ex then ((mant * 2 ^ (ex - 1075) : Nat) : Rat) else mkRat (Int.ofNat mant) (2 ^ (1075 - ex))
+    if b / 2 ^ 63 = 1 then -mag else mag
 
 end Pipeline
